@@ -327,6 +327,7 @@ class _Hooks:
     pick_int = None       # callable(z3 Int term) -> a feasible python int under assumptions & PC
     floor = None          # callable(Q) -> Q: integer part of a finite, non-negative rational value (fresh Int unknown)
     int_kinds = None      # callable() -> set of names of integer-valued inputs
+    round_to = None       # callable(Q, ndigits) -> Q: nearest multiple of 10^-ndigits (fresh Int unknown)
 
 
 HOOKS = _Hooks()
@@ -602,6 +603,18 @@ class Q:
             isc(self.n) and isc(self.d) and self.rn is None
             and isb(self.nan) and isb(self.inf)
         )
+
+    def __round__(self, ndigits=None):
+        """round(x, n): a multiple k / 10^n with |x * 10^n - k| <= 1/2 (k a fresh integer unknown; either tie rule is allowed)"""
+        n = 0 if ndigits is None else int(ndigits)
+        if self.is_const:
+            v = self.const_value()
+            return Q.lift(round(v, n)) if v == v and abs(v) != float("inf") else self
+        if not (isb(self.nan) and not self.nan and isb(self.inf) and not self.inf and self.rn is None and isc(self.d) and self.d == 1):
+            raise Unsupported("round() of a symbolic value that is not a finite linear form")
+        if HOOKS.round_to is None:
+            raise Unsupported("round() of symbolic data outside an engine run")
+        return HOOKS.round_to(self, n)
 
     def to_int64(self):
         """C cast of a finite non-negative value to int64 (truncation): identity on integer-valued linear forms, otherwise
